@@ -2,6 +2,7 @@
 package props
 
 import (
+	_ "verif/props/c01"
 	_ "verif/props/c02"
 	_ "verif/props/c11"
 )
